@@ -144,12 +144,17 @@ func drawStrPool(t *rapid.T) strPool {
 	} else {
 		w = drawHostile(t, 1, 6)
 	}
+	if rapid.IntRange(0, 11).Draw(t, "longword") == 6 {
+		// a LONG final string (63..1025 bytes and a short hostile tail): prefixes
+		// far beyond any fixed-size buffer or wire-format limit
+		w = gen.LongString(t, "longw") + w
+	}
 	p := strPool{w: w}
 	nw := spec.NFC(w)
-	for _, c := range cutPoints(w) {
+	for _, c := range sparse(cutPoints(w)) {
 		p.parts = append(p.parts, w[:c])
 	}
-	for _, c := range cutPoints(nw) {
+	for _, c := range sparse(cutPoints(nw)) {
 		p.parts = append(p.parts, nw[:c])
 	}
 	// extensions and near misses
@@ -450,4 +455,19 @@ func collapseTemplate(t *rapid.T, ty spec.T, pool []spec.Num) []Step {
 		perm[i].Chain = i > 0 && rapid.IntRange(0, 2).Draw(t, "tchain") > 0
 	}
 	return perm
+}
+
+// sparse thins out the cut points of a long string: the first few, those
+// around 64, 256 and 1024 bytes, and the last few.
+func sparse(cs []int) []int {
+	if len(cs) <= 24 {
+		return cs
+	}
+	var out []int
+	for i, c := range cs {
+		if i < 3 || i >= len(cs)-5 || (c >= 61 && c <= 67) || (c >= 252 && c <= 260) || (c >= 1020 && c <= 1028) {
+			out = append(out, c)
+		}
+	}
+	return out
 }
